@@ -64,6 +64,73 @@ class C18HarnessRTL(Component):
   def line_trace(s):
     return s.mem.line_trace()
 
+def scribble(m):
+  """overwrite a request object in place with a different, still valid request"""
+  t = int(m.type_)
+  m.type_ @= (1 - t) if t < 2 else 3 + (t - 3 + 4) % 9
+  m.opaque @= int(m.opaque) ^ 0xff
+  m.addr @= int(m.addr) ^ 1
+  m.data @= ~m.data
+
+class C18ReuseSrcCL(Component):
+  """a CL master. mode 'reuse': keeps ONE request object and overwrites its fields for every new request (as an RTL
+  master's message signal does); 'reuse_scribble': additionally scribbles over it right after the send; 'fresh_scribble':
+  a fresh object per request, scribbled over right after the send; 'fresh': fresh objects, never touched again."""
+  def construct(s, Type, reqs, initial_delay, interval_delay, mode):
+    s.send = CallerIfcCL(Type=Type)
+    s.reqs = list(reqs)
+    s.idx = 0
+    s.obj = Type()
+    s.count = initial_delay
+    s.delay = interval_delay
+    s.mode = mode
+
+    @update_once
+    def up_src_send():
+      if s.count > 0:
+        s.count -= 1
+      elif not s.reset:
+        if s.send.rdy() and s.idx < len(s.reqs):
+          r = s.reqs[s.idx]; s.idx += 1
+          if s.mode.startswith('reuse'):
+            m = s.obj
+            m.type_ @= r[0]; m.opaque @= r[1]; m.addr @= r[2]; m.len @= r[3]; m.data @= r[4]
+          else:
+            m = Type(r[0], r[1], r[2], r[3], r[4])
+          s.send(m)
+          if s.mode.endswith('scribble'): scribble(m)
+          s.count = s.delay
+
+  def done(s):
+    return s.idx >= len(s.reqs)
+
+  def line_trace(s):
+    return f"{s.send}"
+
+class C18HarnessAlias(Component):
+  """MagicMemoryCL driven per port by the stock RTL test source through the auto-inserted RTL->CL adapter ('rtlsrc'), by
+  C18ReuseSrcCL (its modes), or by the stock TestSrcCL ('cl')"""
+  def construct(s, nports, types, drivers, reqs, stall_prob, latency, src_init, src_intv, sink_init, sink_intv, cmp_fns):
+    from pymtl3.stdlib.test_utils.test_srcs import TestSrcRTL
+    def mk(i):
+      if drivers[i] == 'rtlsrc':
+        return TestSrcRTL(types[0], [types[0](*r) for r in reqs[i]], src_init[i], src_intv[i])
+      if drivers[i] == 'cl':
+        return TestSrcCL(types[0], [types[0](*r) for r in reqs[i]], src_init[i], src_intv[i])
+      return C18ReuseSrcCL(types[0], reqs[i], src_init[i], src_intv[i], drivers[i])
+    s.srcs = [mk(i) for i in range(nports)]
+    s.mem = MagicMemoryCL(nports, [types] * nports, stall_prob, latency, 1 << 16)
+    s.sinks = [TestSinkCL(types[1], [None] * len(reqs[i]), sink_init[i], sink_intv[i], None, cmp_fns[i]) for i in range(nports)]
+    for i in range(nports):
+      connect(s.srcs[i].send, s.mem.ifc[i].req)       # for 'rtlsrc': RTL master -> CL memory, adapter inserted by connect
+      connect(s.mem.ifc[i].resp, s.sinks[i].recv)
+
+  def done(s):
+    return all(x.done() for x in s.srcs) and all(x.done() for x in s.sinks)
+
+  def line_trace(s):
+    return s.mem.line_trace()
+
 #-------------------------------------------------------------------------
 # recording
 #-------------------------------------------------------------------------
@@ -170,9 +237,20 @@ def run_system(kind, cfg, image, dump, max_cycles=3000):
   else:
     for c in range(3): envd[c] = [0] * n
   sample(3)
+  # "the memory must not keep a reference to a caller-owned message": in scribbling runs every request object the CL source
+  # has handed over is overwritten in place (type / opaque / addr / data flipped) before the next cycle
+  nsent = [0] * n
+  def scribble_sent():
+    for i in range(n):
+      k = len(msgs[i]) - len(th.srcs[i].msgs)
+      for m in msgs[i][nsent[i]:k]: scribble(m)
+      nsent[i] = k
+  scrib = kind == 'cl' and cfg.get('scribble')
+  if scrib: scribble_sent()
   while not th.done() and th.sim_cycle_count() < max_cycles:
     th.sim_tick()
     sample(th.sim_cycle_count())
+    if scrib: scribble_sent()
   R.timeout = not th.done()
   for _ in range(3):
     th.sim_tick(); sample(th.sim_cycle_count())
@@ -201,3 +279,35 @@ def run_fl(dbits, image, dump, reqs):
       v = fl.amo(mk_bits(4)(t), AT(a), k, DT(d))
       out.append([t, o, 0, l, int(v)])
   return out, list(fl.read_mem(dump[0], dump[1]))
+
+def run_alias(cfg, image, dump, max_cycles=3000):
+  """MagicMemoryCL with per-port drivers cfg['drivers'] (see C18HarnessAlias). Records the processing order (requests as
+  the memory saw them), the responses and the final image; the requests as SENT are cfg['reqs']."""
+  n, dbits = cfg['nports'], cfg['dbits']
+  types = msg_types(dbits)
+  R = Run()
+  R.deliv = [[] for _ in range(n)]
+  holder = {}
+  clock = lambda: holder['top']._sim.simulated_cycles
+  def mk_cmp(i):
+    def f(msg, ref):
+      R.deliv[i].append([clock(), resp_tuple(msg)])
+      return True
+    return f
+  th = C18HarnessAlias(n, types, cfg['drivers'], cfg['reqs'], cfg['stall_prob'], cfg['latency'],
+                       cfg['src_init'], cfg['src_intv'], cfg['sink_init'], cfg['sink_intv'], [mk_cmp(i) for i in range(n)])
+  th.elaborate()
+  holder['top'] = th
+  th.mem.write_mem(image[0], bytes(image[1]))
+  th.apply(DefaultPassGroup(linetrace=False))
+  hook_memory_fl(th.mem.mem, clock, R.log)
+  th.sim_reset()
+  while not th.done() and th.sim_cycle_count() < max_cycles:
+    th.sim_tick()
+  R.timeout = not th.done()
+  for _ in range(12):        # duplicated / extra responses would show up here
+    th.sim_tick()
+  R.cycles = th.sim_cycle_count() + 1
+  R.env = None
+  R.image = list(th.mem.read_mem(dump[0], dump[1]))
+  return R
